@@ -24,7 +24,7 @@ _ALPHA = None
 def path_alphabet() -> Alphabet:
     global _ALPHA
     if _ALPHA is None:
-        _ALPHA = Alphabet([], extra=PATH_EXTRA, exclude="\n\r")
+        _ALPHA = Alphabet([], extra=PATH_EXTRA + "\n")
     return _ALPHA
 
 
@@ -45,6 +45,19 @@ class RewrittenGlob(AnalysisError):
         self.node = node
 
 
+def _flag_value(e) -> int:
+    """Value of a `re` flags expression (names of the re module joined by `|`); anything else is not decided."""
+    if e is None:
+        return 0
+    if isinstance(e, ast.BinOp) and isinstance(e.op, ast.BitOr):
+        return _flag_value(e.left) | _flag_value(e.right)
+    if isinstance(e, ast.Attribute) and isinstance(e.value, ast.Name) and e.value.id == "re" and isinstance(getattr(re, e.attr, None), re.RegexFlag):
+        return int(getattr(re, e.attr))
+    if isinstance(e, ast.Constant) and isinstance(e.value, int):
+        return e.value
+    raise AnalysisError(f"flags of the compiled globs cannot be read: {ast.unparse(e)}")
+
+
 class Matcher:
     """How AnnotationsItem turns its globs into the compiled pattern, extracted from the source:
     the expression passed to re.compile is kept as a template over `SEP.join(translate(p) for p in paths)`
@@ -61,9 +74,19 @@ class Matcher:
         v = self.compile_call
         if v is None:
             raise AnalysisError("anchor vanished: assignment of AnnotationsItem._paths_regex")
-        if not (isinstance(v, ast.Call) and ast.unparse(v.func) == "re.compile" and len(v.args) == 1 and not v.keywords):
-            raise AnalysisError("_paths_regex is not a plain re.compile(<expr>) without flags")
+        if not (isinstance(v, ast.Call) and ast.unparse(v.func) == "re.compile" and 1 <= len(v.args) <= 2
+                and all(k.arg == "flags" for k in v.keywords) and len(v.args) + len(v.keywords) <= 2):
+            raise AnalysisError("_paths_regex is not a plain re.compile(<expr>[, flags])")
         self.expr = v.args[0]
+        fl = v.args[1] if len(v.args) == 2 else (v.keywords[0].value if v.keywords else None)
+        self.flags = _flag_value(fl)
+        # how the compiled alternation is applied: the method `matches` calls on it
+        self.mode = None
+        mfn = repo.func(f"{GL}.AnnotationsItem.matches")
+        for c in ast.walk(mfn):
+            if isinstance(c, ast.Call) and isinstance(c.func, ast.Attribute) and ast.unparse(c.func.value) == "self._paths_regex" \
+                    and c.func.attr in ("match", "fullmatch", "search"):
+                self.mode = {"match": "match", "fullmatch": "full", "search": "search"}[c.func.attr]
         self.translator_name = None
         self.sorted_iter = None
         self.separators: list[str] = []
@@ -266,7 +289,7 @@ def decide(m: "Matcher", glob: str):
     alpha = path_alphabet()
     regex = m.regex_for([glob])
     try:
-        impl = Lang.from_regex(regex, 0, alpha, "match")
+        impl = Lang.from_regex(regex, m.flags, alpha, m.mode or "match")
     except AnalysisError as err:
         return {"glob": glob, "regex": regex, "dir": "invalid", "witness": str(err), "classB": False}
     narrow = Lang.from_parts(alpha, narrow_parts(toks), "narrow")
@@ -400,7 +423,7 @@ def rule_model(ck: Check, repo: Repo):
     from ..relang import union
     for pair in (("a", "b/*"), ("*.a", "a/**"), ("a*", "*b"), ("b", "a"), ("a/*", "a")):
         for globs in (list(pair), list(reversed(pair))):
-            both = Lang.from_regex(m.regex_for(globs), 0, alpha, mode)
+            both = Lang.from_regex(m.regex_for(globs), m.flags, alpha, mode)
             singles = []
             for g in globs:
                 t = tokenise(g)
